@@ -23,6 +23,7 @@ RULE = ("instances of the five reference families with default options: "
         "the minimiser has >=1 active constraint or x0 is infeasible; "
         "distinct = (family, n, active-set size, x0 side)")
 RULE += ("  Also: equality families with a redundant but consistent row (sub-family; failures with exploding multipliers are the known finding KF-C04-redundant-equalities).")
+RULE += (" Box sides between one and two initial radii wide with the minimiser next to one bound.")
 ASSUMPTIONS = [
     "thresholds: largest deviation pre-measured over 1600 instances 1e-5 "
     "(3.6e-4 for the ball family); the known failure modes give >= 1e-2",
